@@ -135,4 +135,63 @@ theorem guard_key (g : Guard) (t : Task) (h : g.matches t = true) : t.chan = g.c
   simp [Guard.matches] at h
   exact ⟨h.1.1.1.1.1.1, h.1.1.1.1.1.2⟩
 
+
+theorem fence_norm_bump (m nm0 : Meta) : (normMeta (bumpRoute m (normMeta nm0))).fence = nm0.fence := by
+  unfold bumpRoute
+  split <;> rfl
+
+/-- a mutator never changes a fence whose token is not the mutated task's id -/
+theorem mutate_foreign (c : Cmd) (t nt : Task) (m nm : Meta) (h : mutate c t m = .ok (nt, nm))
+    (hf : m.ftok ≠ 0) (hne : m.ftok ≠ t.id) : nm.fence = m.fence := by
+  have contra : ∀ v, activeTaskFence t m v = true → False := by
+    intro v hv
+    have := (activeTaskFence_iff t m v).mp hv
+    omega
+  unfold mutate at h
+  split at h
+  · unfold mutSetFence at h
+    split at h; · simp at h
+    split at h; · simp at h
+    rename_i hnf
+    exfalso
+    simp [noForeignFence] at hnf
+    exact contra _ (hnf (Or.inr hf)).2
+  · unfold mutResetFence at h
+    split at h; · simp at h
+    split at h; · simp at h
+    rename_i ha
+    simp at ha
+    exact absurd ha (fun x => contra _ x)
+  · exact (mutCommit_ok c t nt m nm h).2.2.2.2.2.2
+  · unfold mutAddLearner at h
+    split at h; · simp at h
+    simp only at h
+    split at h; · simp at h
+    simp at h; rw [← h.2]; rfl
+  · exact (mutPromote_ok c t nt m nm h).2.2.2.2.2.2
+  · unfold mutClearFence at h
+    split at h; · simp at h
+    split at h
+    · simp at h; rw [← h.2]
+    split at h; · simp at h
+    rename_i ha
+    simp at ha
+    exact absurd ha (fun x => contra _ x)
+  · unfold mutAbort at h
+    split at h; · simp at h
+    split at h; · simp at h
+    simp only at h
+    split at h
+    · simp at h
+    · rename_i nm1 hr
+      split at hr
+      · split at hr; · simp at hr
+        rename_i ha
+        simp at ha
+        exact absurd ha (fun x => contra _ x)
+      · rename_i hz
+        simp at hz
+        exact absurd hz hf
+  · simp at h
+
 end WK.C17
